@@ -91,6 +91,9 @@ type ChainCfg struct {
 	ParamDepth int
 	// MapLabel may give a label to the argument of FromMap.
 	MapLabel func(v ssa.Value) string
+	// Leaf may declare a value a leaf of its own (an input of the function under analysis that arrives
+	// as a field of an options struct rather than as a parameter).
+	Leaf func(v ssa.Value) (Chain, bool)
 }
 
 // TypeField labels a field by its owner's type name: "Task.Env".
@@ -142,6 +145,11 @@ func (cfg *ChainCfg) chains(v ssa.Value, depth int, busy map[ssa.Value]bool, bin
 	busy[v] = true
 	defer delete(busy, v)
 
+	if cfg.Leaf != nil {
+		if ch, ok := cfg.Leaf(v); ok {
+			return []Chain{ch}
+		}
+	}
 	all := ResolveAll(v)
 	if len(all) != 1 {
 		var out []Chain
